@@ -35,7 +35,7 @@ TECHNIQUE = ("Lean 4 proofs by induction over a hand model (hole lists, sections
              "correspondence with the real linker; the property itself is evaluated on real relaxed/unrelaxed link pairs with the Lean "
              "decoders and the Lean RV32 interpreter as oracles")
 RULE = ("corpus of 27 fixed links (C.J edges +-2044..2052, hole accounting, multi-section/multi-image, DEFINESYMBOL, data references, "
-        "no layout, jal with other link registers, the open findings) + generated 'maze' programs (quick 40, thorough 400: 2-9 blocks "
+        "no layout, jal with other link registers, the open findings) + generated 'maze' programs (quick 30, thorough 240: 2-9 blocks "
         "and 0-3 functions scattered over 1-3 objects and 1-3 code sections, gaps around the 2 KiB reach, relaxable and base jumps, "
         "branches, calls, abs/pc-relative data references, 1-2 code memories incl. adjacent ones) + 2 C programs compiled by ppci for "
         "riscv:rvc. evaluation = one (unrelaxed, relaxed) link pair / one decoded reference / one emulated run / one model request; "
@@ -344,6 +344,7 @@ class Eval:
         self.pending = []       # (kind, info) per request
         self.holes = {}
         self.ok = True
+        self.u_broken = False   # a reference of the UNRELAXED link does not designate its symbol (C10/C11): runs not comparable
 
     def fail(self, sig, what, **kw):
         self.ok = False
@@ -514,6 +515,7 @@ class Eval:
                     vU, vR = (vU + info["PU"]) % 2 ** 32, (vR + info["PR"]) % 2 ** 32
                 if vU != info["AU"] % 2 ** 32:
                     self.ctx.count("unrelaxed-target-mismatch")      # C10/C11 territory
+                    self.u_broken = True
                     continue
                 if vR != info["AR"] % 2 ** 32:
                     self.fail(f"relax:wrong-target:{info['ty']}{sfx}", f"{where}: designates {vR:#x} after relaxation, symbol is at {info['AR']:#x}")
@@ -524,6 +526,7 @@ class Eval:
                 continue
             if int(tU) != info["AU"]:
                 self.ctx.count("unrelaxed-target-mismatch")
+                self.u_broken = True
                 continue
             if int(tR) != info["AR"]:
                 self.fail(f"relax:wrong-target:{info['tyR']}{sfx}",
@@ -636,7 +639,7 @@ def gen_case(rng, idx, thorough):
     place = {u: (rng.randrange(nobjs), rng.choice(secs)) for u in units}
     place[("b", 0)] = (0, place[("b", 0)][1])
     lab = lambda u: ("start" if u == ("b", 0) else f"{u[0]}{u[1]}")      # noqa: E731
-    gaps = [0, 0, 0, 2, 4, 6, 10, 60, 400, 1000, 2030, 2034, 2036, 2038, 2040, 2042, 2044, 2046, 2048, 2050, 2052, 2060, 3000, 4200]
+    gaps = [0, 0, 0, 2, 4, 6, 10, 60, 400, 1000, 2030, 2034, 2036, 2038, 2040, 2042, 2044, 2046, 2048, 2050, 2052, 2060, 3000]
     objs = [[] for _ in range(nobjs)]
     allg = sorted(lab(u) for u in units)
     dnames = [f"w{k}" for k in range(rng.randint(1, 3))] if with_data else []
@@ -755,10 +758,8 @@ def run_cases(ctx, cases, extra=()):
         if "PRE" not in res:
             ctx.count("link-fails-before-relaxation")
             continue
-        pre = obj_line(res["PRE"])
-        for op in ("plain", "relax", "finish"):
-            plan.append((case, res, op, len(lines)))
-            lines.append(f"{op} {pre}")
+        plan.append((case, res, "all", len(lines)))
+        lines.append("all " + obj_line(res["PRE"]))
         if "U" not in res:
             ctx.count("unrelaxed-link-fails:" + res.get("U_exc", "?"))
             continue
@@ -796,8 +797,16 @@ def run_cases(ctx, cases, extra=()):
     replies = ctx.driver("C13", lines) if lines else []
     extra_replies = replies[nmine:]
     runs = {}
+    plan2 = []
     for case, res, op, i in plan:
-        rep = replies[i]
+        if op == "all":
+            parts = replies[i].split(" ;; ")
+            if len(parts) != 3:
+                raise common.BrokenCheck("driver C13: malformed reply to `all`: " + replies[i][:200])
+            plan2 += [(case, res, o, p) for o, p in zip(("plain", "relax", "finish"), parts)]
+        else:
+            plan2.append((case, res, op, replies[i]))
+    for case, res, op, rep in plan2:
         if op in ("plain", "relax", "finish"):
             ctx.count("eval_model_" + op)
             m = parse_obj_reply(rep)
@@ -815,16 +824,19 @@ def run_cases(ctx, cases, extra=()):
                 ctx.disagree(op + ":exception", case["name"], res.get(exk), "ok")
         else:
             runs.setdefault(case["name"], {})[op] = (rep, case)
+    broken = set()
     for ev in evals:
         ev.judge(replies[ev.base: ev.base + len(ev.reqs)])
+        if ev.u_broken:
+            broken.add(ev.case["name"])
     for name, d in runs.items():
         if "runU" not in d or "runR" not in d:
             continue
         (u, case), (r, _) = d["runU"], d["runR"]
         ctx.count("eval_run")
         tu, tr = u.split(), r.split()
-        if tu[1] != "ebreak":
-            ctx.count("unrelaxed-run-" + tu[1])
+        if tu[1] != "ebreak" or name in broken:
+            ctx.count("unrelaxed-run-" + (tu[1] if tu[1] != "ebreak" else "not-comparable"))
             continue
         if (tu[1], tu[2], tu[4]) != (tr[1], tr[2], tr[4]):
             if any(f["case"] is case for f in ctx.failures):
@@ -839,14 +851,16 @@ def run_cases(ctx, cases, extra=()):
 
 def check(ctx):
     cases = corpus()
-    n = 400 if ctx.thorough else 40
+    n = 240 if ctx.thorough else 30
     for i in range(n):
         cases.append(gen_case(ctx.rng, i, ctx.thorough))
     for k in range(len(C_SOURCES)):
         cases.append(dict(name=f"c-program-{k}", objs=[C_START], csrc=k, entry="start", run=True,
                           layout="MEMORY flash LOCATION=0x1000 SIZE=0x8000 { SECTION(code) }\nMEMORY ram LOCATION=0x20000 SIZE=0x1000 { SECTION(data) }"))
     slines, sexp = spec_requests(ctx)
-    rep = run_cases(ctx, cases, ["table"] + slines)
+    rep = run_cases(ctx, cases[:80], ["table"] + slines)
+    for k in range(80, len(cases), 80):
+        run_cases(ctx, cases[k:k + 80])
     if rep[0] != "ok 1":
         ctx.disagree("table", "Gen.RelaxTab.table vs Model.Relax.rvcTable", str(getattr(ctx, "table", None)), rep[0])
     for ln, e, r in zip(slines, sexp, rep[1:]):
